@@ -27,6 +27,19 @@
 #include <soundswallower/tmat.h>
 #include <soundswallower/bin_mdef.h>
 #include <soundswallower/dict.h>
+#include <soundswallower/ssverif.h>
+
+/* frame scores of the second pass itself, recorded through hook H1 while decoder_alignment() runs */
+typedef struct tapbuf { int16 *s; int nsen, nfr, cap; } tapbuf;
+static tapbuf TAP, TAP1;   /* second pass (one decoder_alignment call) / first pass (the utterance so far) */
+static void tap_cb(void *user, int fr, const short *sc, int n)
+{
+    tapbuf *t = (tapbuf *)user;
+    if (fr < 0 || fr > 100000) return;
+    if (t->nsen != n) { free(t->s); t->s = NULL; t->cap = 0; t->nsen = n; t->nfr = 0; }
+    if (fr >= t->cap) { int nc = t->cap ? t->cap * 2 : 256; while (nc <= fr) nc *= 2; t->s = (int16 *)realloc(t->s, sizeof(int16) * (size_t)nc * (size_t)n); t->cap = nc; }
+    memcpy(t->s + (size_t)fr * (size_t)n, sc, sizeof(int16) * (size_t)n); if (fr + 1 > t->nfr) t->nfr = fr + 1;
+}
 
 typedef struct ent { int start, dur, score; char name[96]; int cipid, ssid, tmatid, senid, wid; int first_child, nchild; } ent;
 typedef struct hier { int nw, np, ns; ent *w, *p, *s; } hier;
@@ -239,6 +252,12 @@ static void check_first_pass(ctx *c, const hier *h, const vd_result *res, const 
 {
     fsg_search_t *fs = (fsg_search_t *)c->d->search; int k, sw = 0;
     if (!c->exact_domain) return;
+    {   /* both passes must have seen the same frame scores (the scorer's top-N selection keeps ties by history, so a re-scored frame can differ in rare cases) */
+        int need = h->nw ? h->w[h->nw - 1].start + h->w[h->nw - 1].dur : 0;
+        if (TAP.nfr < need || need <= 0) { vh_count("first_pass_comparison_skipped_alignment_served_from_cache", 1); return; }
+        if (TAP1.nfr < need || TAP1.nsen != TAP.nsen) { vh_count("first_pass_comparison_skipped_no_first_pass_scores", 1); return; }
+        if (memcmp(TAP.s, TAP1.s, sizeof(int16) * (size_t)need * (size_t)TAP.nsen)) { vh_count("first_pass_comparison_skipped_scores_differ_between_passes", 1); return; }
+    }
     for (k = 0; k < res->nseg && sw < h->nw; ++k) {
         const vd_seg *s = &res->seg[k]; const ent *w; long acoustic; int content_single;
         if (dict_wordid(c->d->dict, s->word) == BAD_S3WID) continue;
@@ -281,26 +300,15 @@ out:
     vj_free(v);
 }
 
-static void recompute_senones(ctx *c)
-{
-    acmod_t *am = c->d->acmod; int T = am->output_frame, t;
-    free(c->sen); c->sen = NULL; c->nfr_sen = 0;
-    if (!c->cfg.compallsen || T <= 0) return;
-    c->nsen = bin_mdef_n_sen(am->mdef);
-    vh_ctx("harness_rescoring");
-    if (acmod_rewind(am) < 0) return;
-    c->sen = (int16 *)malloc(sizeof(int16) * (size_t)T * (size_t)c->nsen);
-    for (t = 0; t < T; ++t) { int fr = t; const int16 *s = acmod_score(am, &fr); if (!s) { free(c->sen); c->sen = NULL; return; } memcpy(c->sen + (long)t * c->nsen, s, sizeof(int16) * (size_t)c->nsen); acmod_advance(am); }
-    c->nfr_sen = T;
-}
-
 static void observe(ctx *c, int final, const char *when)
 {
     vd_result res; alignment_t *al, *al2; hier h; int nwords = 0, k;
     vd_result_get(c->d, &res);
     for (k = 0; k < res.nseg; ++k) if (dict_wordid(c->d->dict, res.seg[k].word) != BAD_S3WID) ++nwords;
     vh_ctx("decoder_alignment");
+    TAP.nfr = 0; ssv_senscr_tap_user = &TAP; ssv_senscr_tap = tap_cb;
     al = decoder_alignment(c->d);
+    ssv_senscr_tap_user = &TAP1;
     if (!al) {
         if (nwords > 0) vh_viol(final ? "no_alignment_for_a_result_with_words|final" : "no_alignment_for_a_result_with_words|partial", "%s: the segmentation has %d dictionary words (first %s@%d) but decoder_alignment() returned NULL", when, nwords, res.seg[0].word, res.seg[0].sf);
         else vh_count("no_words_no_alignment", 1);
@@ -318,7 +326,12 @@ static void observe(ctx *c, int final, const char *when)
     al = al2;
     if (hier_read(&h, al) == 0) {
         check_structure(c, &h, &res, when);
-        if (final) { recompute_senones(c); check_rescoring(c, &h); }
+        if (c->cfg.compallsen) {
+            /* the second pass was just run (not served from the decoder's cache) iff the tap saw its frames */
+            int need = h.nw ? h.w[h.nw - 1].start + h.w[h.nw - 1].dur : 0;
+            if (TAP.nfr >= need && need > 0) { c->sen = TAP.s; c->nsen = TAP.nsen; c->nfr_sen = TAP.nfr; check_rescoring(c, &h); c->sen = NULL; }
+            else vh_count("rescoring_skipped_alignment_served_from_cache", 1);
+        }
         check_first_pass(c, &h, &res, when, final);
         if (final || vh_chance(c->r, 0.3)) { check_json(c, &h, 1 + (int)vh_below(c->r, 2)); }
         vh_count(final ? "final_alignments_checked" : "partial_alignments_checked", 1);
@@ -343,7 +356,8 @@ static void stale_probe(ctx *c, vh_rng *r, int prev_frames)
     vd_audio b; long off = 0; int asked = 0;
     vd_audio_make(r, c->lang, 0, 0, &b);
     vh_ctx("second_utterance");
-    if (decoder_start_utt(c->d) < 0) { vd_audio_free(&b); return; }
+    TAP1.nfr = 0; ssv_senscr_tap_user = &TAP1; ssv_senscr_tap = tap_cb;
+    if (decoder_start_utt(c->d) < 0) { ssv_senscr_tap = NULL; vd_audio_free(&b); return; }
     while (off < b.n) {
         long n = b.n - off > 160 ? 160 : b.n - off;
         decoder_process_int16(c->d, (int16 *)b.s + off, (size_t)n, 0, 0); off += n;
@@ -351,6 +365,7 @@ static void stale_probe(ctx *c, vh_rng *r, int prev_frames)
     }
     decoder_end_utt(c->d);
     observe(c, 1, "second utterance, final");
+    ssv_senscr_tap = NULL;
     vd_audio_free(&b);
 }
 
@@ -382,10 +397,14 @@ static void run(long i, vh_rng *r)
     vd_search_desc(&c.sp, sdesc, sizeof(sdesc)); vd_pattern_desc(&p, pdesc, sizeof(pdesc));
     vh_desc("%s cmn=%s compallsen=%d cionly=%d | %s | %s | audio: %s | %s\n%s", lang == VD_FR ? "fr-fr" : "en-us", c.cfg.cmn, c.cfg.compallsen, c.cfg.cionly, sdesc, g.desc, a.desc, pdesc, g.text.s);
     if (vd_gram_load(c.d, &g) != 0) { vh_count("grammar_load_failed", 1); vh_inconc("the decoder refused the generated grammar (%s)", g.desc); goto out; }
+    TAP1.nfr = 0; ssv_senscr_tap_user = &TAP1; ssv_senscr_tap = tap_cb;
     vd_run(c.d, &a, r, &p, partial_cb, &c, &info);
+    ssv_senscr_tap = NULL;
     if (info.failed) { vh_inconc("utterance calls failed (judged by C03)"); goto out; }
     prev_frames = c.d->acmod->output_frame;
+    ssv_senscr_tap_user = &TAP1; ssv_senscr_tap = tap_cb;
     observe(&c, 1, "final result");
+    ssv_senscr_tap = NULL;
     if (c.alignments && vh_chance(r, 0.2)) stale_probe(&c, r, prev_frames);
     if (c.alignments) vh_nontrivial("%ld/%d", i, c.alignments);
     vh_count(c.exact_domain ? "cases_in_exactness_domain" : "cases_outside_exactness_domain", 1);
@@ -394,7 +413,6 @@ static void run(long i, vh_rng *r)
     vh_count(c.cfg.cionly ? "cionly_cases" : "triphone_cases", 1);
     if (i % 50 == 7) { const char *hy = decoder_hyp(c.d, NULL); vh_sample("%s; %s; %s; %s -> \"%s\": %d alignments checked (%d at partial results)", g.desc, a.desc, pdesc, sdesc, hy ? hy : "(none)", c.alignments, c.partials); }
 out:
-    free(c.sen);
     vd_audio_free(&a);
     vd_gram_free(&g);
 }
